@@ -231,6 +231,9 @@ func removeSubLinesIncludedTaxes(sls []*SubLine, tc *tax.Combo, exp uint32) []*S
 	}
 	rows := make([]*SubLine, len(sls))
 	for i, sl := range sls {
+		if sl == nil {
+			continue
+		}
 		sl2 := *sl
 		sl2i := *sl.Item
 		sl2i.AltPrices = nil
@@ -250,6 +253,9 @@ func removeLineDiscountsIncludedTaxes(discounts []*LineDiscount, tc *tax.Combo, 
 	}
 	rows := make([]*LineDiscount, len(discounts))
 	for i, v := range discounts {
+		if v == nil {
+			continue
+		}
 		d := *v
 		d.Amount = d.Amount.Upscale(exp).Remove(*tc.Percent)
 		rows[i] = &d
@@ -263,6 +269,9 @@ func removeLineChargesIncludedTaxes(charges []*LineCharge, tc *tax.Combo, exp ui
 	}
 	rows := make([]*LineCharge, len(charges))
 	for i, v := range charges {
+		if v == nil {
+			continue
+		}
 		d := *v
 		d.Amount = d.Amount.Upscale(exp).Remove(*tc.Percent)
 		rows[i] = &d
